@@ -1,4 +1,4 @@
-import DcmVerif.Props.Source
+import DcmVerif.Props.SourceStack
 import DcmVerif.Props.C11_add
 import DcmVerif.Proofs.Grid
 import DcmVerif.Proofs.Guess
